@@ -183,9 +183,13 @@ Fixpoint lines_keep (l : chars) : list chars :=
 (* str.strip() is empty *)
 Definition blank (l : chars) : bool := forallb is_ws l.
 
-(* textwrap.indent *)
+(* line.strip("\n") == "": nothing but line feeds *)
+Definition only_nl (l : chars) : bool := forallb (ceq NL) l.
+
+(* textwrap.indent with the predicate of 2c2512c: every line that is not empty gets the prefix (before
+   2c2512c the default predicate skipped every whitespace-only line: [blank]) *)
 Definition indent_text (pre : chars) (t : chars) : chars :=
-  flat_map (fun ln => if blank ln then ln else pre ++ ln) (lines_keep t).
+  flat_map (fun ln => if only_nl ln then ln else pre ++ ln) (lines_keep t).
 
 Definition DQ3 : chars := [DQ; DQ; DQ].
 
